@@ -119,3 +119,79 @@ Qed.
 
 Lemma py_join_cons : forall sep p q r, py_join sep (p :: q :: r) = p ++ sep ++ py_join sep (q :: r).
 Proof. reflexivity. Qed.
+
+(** ---------------------------------------------------------------------------------------- *)
+(** three-character patterns [a;b;c] replaced by something that starts with [a;b]
+    (both multi-character replacements of the flattener have this shape:
+     "-->" -> "--&gt;" and "]]>" -> "]]]]><![CDATA[>") *)
+Section Replace3.
+  Variables (a b c : N) (new' : list N).
+  Definition old3 : list N := [a; b; c].
+  Definition new3 : list N := a :: b :: new'.
+  Definition R3 (s : list N) : list N := replace_aux old3 new3 0 s.
+
+  Lemma R3_py : forall s, py_replace old3 new3 s = R3 s.
+  Proof. reflexivity. Qed.
+
+  Lemma R3_nil : R3 [] = [].
+  Proof. reflexivity. Qed.
+
+  Lemma R3_match : forall r, R3 (a :: b :: c :: r) = new3 ++ R3 r.
+  Proof.
+    intros r. unfold R3, old3. cbn [replace_aux starts_with length Nat.sub].
+    rewrite !N.eqb_refl. reflexivity.
+  Qed.
+
+  Lemma R3_nomatch : forall x r, starts_with old3 (x :: r) = false -> R3 (x :: r) = x :: R3 r.
+  Proof. intros x r H. unfold R3. cbn [replace_aux]. rewrite H. reflexivity. Qed.
+
+  (** a match at the head means the text is a :: b :: c :: _ *)
+  Lemma old3_match_inv : forall s, starts_with old3 s = true -> exists r, s = a :: b :: c :: r.
+  Proof.
+    intros s H. apply starts_with_spec in H. destruct H as [r ->]. exists r. reflexivity.
+  Qed.
+
+  Lemma R3_cases : forall s,
+    s = [] \/ (exists r, s = a :: b :: c :: r /\ R3 s = new3 ++ R3 r)
+    \/ (exists x r, s = x :: r /\ starts_with old3 s = false /\ R3 s = x :: R3 r).
+  Proof.
+    intros [|x r]; [left; reflexivity|]. right.
+    destruct (starts_with old3 (x :: r)) eqn:E.
+    - left. destruct (old3_match_inv _ E) as [r' Hr]. exists r'. split; [exact Hr|].
+      rewrite Hr. apply R3_match.
+    - right. exists x, r. repeat split. apply R3_nomatch. exact E.
+  Qed.
+
+  (** the replaced text begins like the original (one and two characters of lookahead),
+      whatever follows *)
+  Lemma R3_sw1 : forall p r X, starts_with [p] (R3 r ++ X) = starts_with [p] (r ++ X).
+  Proof.
+    intros p r X. destruct (R3_cases r) as [-> | [[r' [-> E]] | [x [r' [-> [_ E]]]]]]; [reflexivity| |];
+      rewrite E; reflexivity.
+  Qed.
+
+  Lemma R3_sw2 : forall p q r X, starts_with [p; q] (R3 r ++ X) = starts_with [p; q] (r ++ X).
+  Proof.
+    intros p q r X. destruct (R3_cases r) as [-> | [[r' [-> E]] | [x [r' [-> [_ E]]]]]]; [reflexivity| |];
+      rewrite E.
+    - reflexivity.
+    - cbn [app starts_with]. f_equal. apply (R3_sw1 q r' X).
+  Qed.
+
+  Lemma R3_sw3 : forall x r X, starts_with old3 (x :: R3 r ++ X) = starts_with old3 (x :: r ++ X).
+  Proof. intros x r X. unfold old3. cbn [starts_with]. f_equal. apply R3_sw2. Qed.
+
+  (** where the pattern does not match at the head of [s] it does not match at the head of
+      [s ++ X] either, provided [X] cannot complete it *)
+  Lemma nomatch_app : forall x r X,
+    starts_with old3 (x :: r) = false ->
+    starts_with [c] X = false -> starts_with [b; c] X = false ->
+    starts_with old3 (x :: r ++ X) = false.
+  Proof.
+    intros x r X H H1 H2. unfold old3 in *. cbn [starts_with] in *.
+    destruct (N.eqb a x); [|reflexivity]. cbn [andb] in *.
+    destruct r as [|y r]; [exact H2|]. cbn [app starts_with] in *.
+    destruct (N.eqb b y); [|reflexivity]. cbn [andb] in *.
+    destruct r as [|z r]; [exact H1|]. exact H.
+  Qed.
+End Replace3.
